@@ -53,7 +53,7 @@ func (g *G) GenConfig(trace bool) simrt.Config {
 	case 3:
 		cfg.Strategy, cfg.StickPermil = simrt.StratSticky, 990
 	case 4:
-		cfg.Strategy, cfg.StickPermil, cfg.StarveTag, cfg.StarveBudget = simrt.StratStarve, 700, TagPut, 50+g.Intn(400)
+		cfg.Strategy, cfg.StickPermil, cfg.StarveBudget = simrt.StratStarve, 700, 5+g.Intn(300)
 	case 5:
 		cfg.Strategy, cfg.StickPermil = simrt.StratSticky, 100
 	}
